@@ -364,19 +364,11 @@ def function_predicate(fn_node, symbol=None, aliases=None):
                 if stmt.value is None:
                     return ('const', False)
                 return bool_term(expand(stmt.value), symbol)
-            if isinstance(stmt, ast.For) and not stmt.orelse and len(stmt.body) == 1 and \
-                    isinstance(stmt.body[0], ast.If) and not stmt.body[0].orelse and \
-                    len(stmt.body[0].body) == 1 and \
-                    isinstance(stmt.body[0].body[0], ast.Return):
-                # for v in S: if c(v): return K   ==   if any(c(v) for v in S): return K
-                quantified = ast.Call(
-                    func=ast.Name(id='any', ctx=ast.Load()),
-                    args=[ast.GeneratorExp(elt=stmt.body[0].test, generators=[
-                        ast.comprehension(target=stmt.target, iter=stmt.iter, ifs=[],
-                                          is_async=0)])], keywords=[])
-                rewritten = ast.If(test=quantified, body=stmt.body[0].body, orelse=[])
-                return block([ast.fix_missing_locations(ast.copy_location(rewritten, stmt))]
-                             + stmts[index + 1:])
+            if isinstance(stmt, ast.For):
+                rewritten = _loop_as_test(stmt)
+                if rewritten is None:
+                    return None
+                return block([rewritten] + stmts[index + 1:])
             if isinstance(stmt, ast.If):
                 cond = bool_term(expand(stmt.test), symbol)
                 rest = stmts[index + 1:]
@@ -392,6 +384,42 @@ def function_predicate(fn_node, symbol=None, aliases=None):
         return None
 
     return block(list(fn_node.body))
+
+
+def _quantified(kind, test, loop):
+    call = ast.Call(
+        func=ast.Name(id=kind, ctx=ast.Load()),
+        args=[ast.GeneratorExp(elt=test, generators=[
+            ast.comprehension(target=loop.target, iter=loop.iter, ifs=[], is_async=0)])],
+        keywords=[])
+    return ast.fix_missing_locations(ast.copy_location(call, loop))
+
+
+def _loop_as_test(loop):
+    """
+    a search loop as the ``if`` statement it abbreviates, or None:
+      for v in S: if c(v): return K              ->  if any(c(v) for v in S): return K
+      for v in S: if c(v): break  else: BODY     ->  if not any(c(v) for v in S): BODY
+    (the body may itself be such a loop: normalised inside out)
+    """
+    if len(loop.body) != 1:
+        return None
+    inner = loop.body[0]
+    if isinstance(inner, ast.For):
+        inner = _loop_as_test(inner)
+        if inner is None:
+            return None
+    if not isinstance(inner, ast.If) or inner.orelse or len(inner.body) != 1:
+        return None
+    action = inner.body[0]
+    if isinstance(action, ast.Return) and not loop.orelse:
+        found = ast.If(test=_quantified('any', inner.test, loop), body=[action], orelse=[])
+        return ast.fix_missing_locations(ast.copy_location(found, loop))
+    if isinstance(action, ast.Break) and loop.orelse:
+        missing = ast.UnaryOp(op=ast.Not(), operand=_quantified('any', inner.test, loop))
+        found = ast.If(test=missing, body=list(loop.orelse), orelse=[])
+        return ast.fix_missing_locations(ast.copy_location(found, loop))
+    return None
 
 
 def _always_returns(stmts) -> bool:
